@@ -3,7 +3,8 @@
    correspondence lines.  No proofs here.
 
    WIRE FORMAT (one case per line, integers):
-     case   := 13 NP kind_1..kind_NP MAXPROTOS TIMEOUT NC conn*NC NI init*NI step*
+     case   := 13 NP kind_1..kind_NP MAXPROTOS PCAP TIMEOUT NC conn*NC NI init*NI step*
+       PCAP   : the address book's per-peer cap on unconnected addresses (0 = disabled)
        kind_p : 1 = the peer's ID embeds its key (Ed25519), 0 = hashed (RSA)
        conn   := peer rcls rid limited
        init   := peer addr ttlcode        addresses put into the book before the service starts
@@ -36,7 +37,7 @@ Definition id_of_n (k : N) : Z := Z.of_N k.
 Definition inline_of (inl : list Z) (p : Z) : option N := if zin p inl then Some (Z.to_N p) else None.
 
 Record cfg := mkCfg {
-  g_np : Z; g_inline : list Z; g_maxprotos : Z; g_timeout : Z;
+  g_np : Z; g_inline : list Z; g_maxprotos : Z; g_pcap : Z; g_timeout : Z;
   g_conns : list (Z * conn); g_init : list (Z * Z * Z) }.
 
 Definition ttl_of_code (c : Z) : Z :=
@@ -220,10 +221,10 @@ Definition pcfg : P cfg :=
   np <- pint ;;
   if (np <? 1) || (64 <? np) then (fun _ => None) else
   kinds <- prep pint (Z.to_nat np) ;;
-  maxp <- pint ;; tmo <- pint ;;
+  maxp <- pint ;; pcap <- pint ;; tmo <- pint ;;
   conns <- pcount (p <- pint ;; rc <- pint ;; ri <- pint ;; lim <- pint ;; pret (mkConn p rc ri (zbool lim))) ;;
   init <- pcount (p <- pint ;; a <- pint ;; t <- pint ;; pret (p, a, ttl_of_code t)) ;;
-  pret (mkCfg np (map fst (filter (fun x => zbool (snd x)) (number 1 kinds))) maxp tmo (number 1 conns) init).
+  pret (mkCfg np (map fst (filter (fun x => zbool (snd x)) (number 1 kinds))) maxp pcap tmo (number 1 conns) init).
 
 Definition decode (l : list Z) : option (cfg * list (op * wobs)) :=
   match pcfg l with
@@ -256,13 +257,26 @@ Fixpoint first_diff (i : Z) (a b : list pdump) : Z :=
   | _, _ => -1
   end.
 
+(* The model is the book whose per-peer cap on unconnected addresses never
+   binds (as in C09).  When the cap is enabled and the uncapped book would hold
+   more than that many unconnected addresses of one peer, the real book has
+   evicted some (which ones depends on map iteration order): the history has
+   left the modelled domain and the comparison stops; the monitor still judges
+   every step of such a case. *)
+Definition cap_binds (g : cfg) (s : sys) : bool :=
+  (0 <? g_pcap g) &&
+  existsb (fun p => g_pcap g <? zlen (filter (fun e => (ep e =? p) && negb (Abs.conn (ettl e)))
+                                             (a_ents (ps_book (s_ps s)))))
+          (peers_of (g_np g)).
+
 Fixpoint conform_run (g : cfg) (s : sys) (i : Z) (tr : list (op * wobs)) : list Z :=
   match tr with
   | [] => []
   | (o, x) :: r =>
       let okord := match o with ODisconnected c ord => order_ok g s c ord | _ => true end in
       let '(s', mo) := gstep g s o in
-      if negb okord then [ERR_MISMATCH; i; 1]
+      if cap_binds g s' then []
+      else if negb okord then [ERR_MISMATCH; i; 1]
       else if negb (list_eqb psop_eqb (o_calls mo) (wo_calls x))
            then [ERR_MISMATCH; i; 2; zlen (o_calls mo); zlen (wo_calls x)]
       else if negb (events_eqb (o_events mo) (wo_events x))
